@@ -54,6 +54,15 @@ CHECKS = {
                 text="The README's math-function list is parsed and cross-checked with the translator's table; every function is evaluated by a compiled job standalone, inside arithmetic "
                      "(f+1, 2*f, f/2, g(f), f*member), and with literal arguments, at argument values from event data inside its domain; values must agree with libm to 1e-9.",
                 note="exhaustive over the documented list, sampled over argument values; 'namesake' = libm symbol (ln = log)", ref="4/C12"),
+    "C04": dict(cat="exploration", technique="per-event outcome equivalence (rows | loud fault) between sanitized generated jobs and the Python evaluation; poisoned-null monitor and ASan/UBSan as spurious-fault detectors",
+                text="Enumerated guard templates (guarded and unguarded First/index/nullable links at event, element and chain level) plus random queries biased to partial operations run on events "
+                     "with empty / singleton / many collections and null / non-null links; a reference fault must end the event loudly, a defined event must end OK with the right rows and "
+                     "without NULL_DEREF records or sanitizer reports.",
+                note="events where lazy/eager/skip-unused orders disagree are UNSPEC; any loud ending matches a reference fault", ref="4/C04"),
+    "C05": dict(cat="exploration", technique="reference-free metamorphic test: rows per event from one compiled job run over the full list, permutations, singletons and a split into two jobs",
+                text="For queries rich in per-event state (accumulators, first flags, vector columns, event-level Where, Range, opaque user C++), the rows attributed to each event must be identical "
+                     "whether the event is processed alone, in any order, or in a different job.",
+                note="post-fault state excluded (driver starts a fresh job object after an exception, as the real job would be dead)", ref="4/C05"),
 }
 
 PENDING_REASON = "check not built yet at this commit (work in progress, see DESIGN.md section 4)"
